@@ -59,6 +59,7 @@ def run(ctx, F):
         "util::address::ObjectReference::is_movable": "ObjectReference is valid by contract",
         "util::address::ObjectReference::get_forwarded_object": "ObjectReference is valid by contract",
         "util::address::ObjectReference::is_in_any_space": "ObjectReference is valid by contract",
+        "util::address::ObjectReference::is_sane": "ObjectReference is valid by contract (feature sanity)",
     })
     check_callers(ctx, F, "C31.checked-api", MAP + "get_unchecked", allowed, min_sites=4)
     unchecked_callers = {cs.fn.q for cs in callers(F, MAP + "get_unchecked") if "get_checked" not in cs.fn.q}
@@ -81,8 +82,8 @@ def run(ctx, F):
         q = "<policy::sft::EmptySpaceSFT as policy::sft::SFT>::%s" % nm
         f = F.fns.get(q)
         if f is None:
-            if nm in ("is_mmtk_object", "find_object_from_internal_pointer") and F.config in ("K0", "K5"):
-                continue   # only with the is_mmtk_object / vo_bit features
+            if nm in ("is_mmtk_object", "find_object_from_internal_pointer") and "vo_bit" not in (F.features or []):
+                continue   # compiled only with the vo_bit feature
             raise AnalysisError("C31.checked-api: %s missing" % q)
         ctx.judge(not f.cfg.noreturn, "C31.checked-api", "EmptySpaceSFT::%s returns" % nm, expected="a non-diverging body (arbitrary addresses resolve to the empty space)", found="diverges", where=where(f),
                   key="C31.checked-api|empty|%s" % nm)
